@@ -1049,14 +1049,29 @@ class Interp:
         res = False
         if miss is not None:
             members = self.repo.enum_members(ci)
+            vals_ = [m.value for m in members.values()]
+            small = bool(vals_) and all(isinstance(x, int) and not isinstance(x, bool) and 0 <= x < 1024 for x in vals_)
+
+            def fixed(e):
+                # None, a named member, or a choice between such (conditional expression / and / or)
+                if isinstance(e, ast.Constant) and e.value is None:
+                    return True
+                if isinstance(e, ast.Attribute) and isinstance(e.value, ast.Name) and e.value.id in ("cls", ci.name) and e.attr in members:
+                    return True
+                if isinstance(e, ast.IfExp):
+                    return fixed(e.body) and fixed(e.orelse)
+                if isinstance(e, ast.BoolOp):
+                    return all(fixed(x) for x in e.values)
+                return False
             for n in ast.walk(miss.node):
                 if isinstance(n, ast.Return) and n.value is not None:
-                    e = n.value
-                    if isinstance(e, ast.Constant) and e.value is None:
+                    if fixed(n.value):
+                        continue   # fixed, named members (reserved folding): the lazy view with its documented well-formedness reading stays
+                    if small:
+                        # a field of a few bits: whatever way _missing_ spells it (a table, arithmetic on the value), all it can do is
+                        # fold undefined values onto members — the reserved-folding reading, not tolerant matching of a wide pattern
                         continue
-                    if isinstance(e, ast.Attribute) and isinstance(e.value, ast.Name) and e.value.id in ("cls", ci.name) and e.attr in members:
-                        continue   # a fixed, named member (reserved folding): the lazy view with its documented well-formedness reading stays
-                    res = True     # a computed member (loop variable, lookup result ...): only interpretation tells which
+                    res = True     # a computed member of a wide enumeration (loop variable, nearest match ...): only interpretation tells which
         cache[key] = res
         return res
 
